@@ -19,3 +19,132 @@ def normalise(cfg):
             if n.get("data") is None:
                 n["data"] = 0
     return c
+
+
+def lcm(a, b):
+    return a * b // math.gcd(a, b)
+
+
+def topo_order(wf):
+    """networkx.topological_sort order for a graph whose nodes were inserted
+    in list order (Kahn with insertion-order tie-break, as networkx does)."""
+    nodes = [n["k"] for n in wf["nodes"]]
+    indeg = {k: 0 for k in nodes}
+    succ = {k: [] for k in nodes}
+    for e in wf["edges"]:
+        indeg[e["v"]] += 1
+        succ[e["u"]].append(e["v"])
+    zero = [k for k in nodes if indeg[k] == 0]
+    out = []
+    while zero:
+        k = zero.pop()
+        out.append(k)
+        for v in succ[k]:
+            indeg[v] -= 1
+            if indeg[v] == 0:
+                zero.append(v)
+    return out
+
+
+def static_plan(cfg, rng):
+    """random task -> machine assignment, est/eft by list scheduling"""
+    plan = []
+    mach = {m["id"]: m for m in cfg["machines"]}
+    for ob in cfg["obs"]:
+        wf = ob["wf"]
+        nodes = {n["k"]: n for n in wf["nodes"]}
+        preds = {k: [] for k in nodes}
+        for e in wf["edges"]:
+            preds[e["v"]].append((e["u"], e["vol"]))
+        free = {m: 0 for m in mach}
+        eft, where = {}, {}
+        for k in sorted(nodes):   # edges go from lower to higher k
+            m = rng.choice(sorted(mach))
+            rt = max(nodes[k]["comp"] // mach[m]["cpu"], nodes[k]["data"] // mach[m]["bw"], 1)
+            est = free[m]
+            for (p, vol) in preds[k]:
+                arr = eft[p] + (0 if where[p] == m else -(-vol // mach[m]["bw"]))
+                est = max(est, arr)
+            eft[k], where[k] = est + rt, m
+            free[m] = eft[k]
+            plan.append({"o": ob["o"], "k": k, "m": m, "est": est, "eft": est + rt})
+    return plan
+
+
+def random_wf(rng, maxn=4, heavy=False):
+    n = rng.randint(1, maxn)
+    nodes = [{"k": k, "comp": rng.choice([0, 1, 2, 3, 4, 6] if not heavy else [2, 4, 6, 9]),
+              "data": rng.choice([0, 0, 0, 1, 2, 4])} for k in range(1, n + 1)]
+    edges = []
+    for u in range(1, n + 1):
+        for v in range(u + 1, n + 1):
+            if rng.random() < 0.45:
+                edges.append({"u": u, "v": v, "vol": rng.choice([0, 1, 2, 3, 4])})
+    return {"nodes": nodes, "edges": edges}
+
+
+def random_cfg(rng, alg=None, family="roomy", nobs=None, maxn=4):
+    nm = rng.randint(1, 4)
+    machines = [{"id": f"m{i}", "cpu": rng.choice([1, 1, 2, 3]), "bw": rng.choice([1, 1, 1, 2])}
+                for i in range(nm)]
+    K = 1
+    for m in machines:
+        K = lcm(K, m["bw"])
+    arrays = rng.randint(2, 4)
+    max_ingest = rng.randint(1, nm)
+    nobs = nobs or rng.choice([1, 2, 2, 3])
+    obs = []
+    for i in range(nobs):
+        dur = rng.randint(1, 3)
+        rate = rng.randint(1, 3)
+        obs.append({"o": "abc"[i], "est": rng.randint(0, 5), "dur": dur,
+                    "demand": rng.randint(1, arrays), "ing": rng.randint(1, max_ingest),
+                    "rate": rate, "wf": random_wf(rng, maxn)})
+    vols = [o["rate"] * o["dur"] for o in obs]
+    if family == "roomy":
+        hot = (sum(vols) * 10) // 6 + 2 + rng.randint(0, 3)
+        cold = max(vols) + rng.randint(0, 5)
+    elif family == "tight":
+        # admission is refused for a while but the 60% threshold is never crossed
+        v = max(vols)
+        for o in obs:
+            o["rate"], o["dur"] = 3, 2
+        hot = 10
+        cold = 6 + rng.randint(0, 3)
+    else:  # "tier": may cross the threshold
+        hot = max(vols) + 1 + rng.randint(0, max(vols))
+        cold = max(vols) + rng.randint(0, sum(vols))
+    cfg = {"K": K, "machines": machines, "arrays": arrays, "maxIngest": max_ingest,
+           "hotCap": hot, "coldCap": cold,
+           "hotRate": max(o["rate"] for o in obs) + rng.randint(0, 2),
+           "coldRate": rng.randint(1, 3), "obs": obs}
+    alg = alg or rng.choice(["batch", "batch", "queue", "plan", "greedy"])
+    cfg["alg"] = alg
+    if alg == "batch":
+        cfg["parts"] = rng.choice([1, 1, 2])
+        cap = max(1, nm // cfg["parts"])
+        cfg["minPer"] = rng.randint(1, cap)
+        if rng.random() < 0.2:
+            cfg["split"] = []
+            for o in obs:
+                mn = rng.randint(1, nm)
+                cfg["split"].append({"o": o["o"], "min": mn, "max": rng.randint(mn, nm)})
+            cfg["minPer"] = 1
+    if alg in ("plan", "greedy"):
+        cfg["plan"] = static_plan(cfg, rng)
+    extra = []
+    if rng.random() < 0.5:
+        for o in obs:
+            for n in o["wf"]["nodes"]:
+                if rng.random() < 0.35:
+                    extra.append({"o": o["o"], "k": n["k"], "x": rng.choice([1, 1, 2])})
+    cfg["extra"] = extra
+    if alg == "adv":
+        cfg["advRounds"] = rng.randint(1, 4)
+        cfg["advSeed"] = rng.randint(0, 10 ** 6)
+    return normalise(cfg)
+
+
+def family(seed, n, **kw):
+    rng = random.Random(seed)
+    return [random_cfg(rng, **kw) for _ in range(n)]
